@@ -3,7 +3,7 @@
     [make_string_constant sh] is the model of the four emitters' quoting functions (delimiters and
     replace chains regenerated from the source on every run); [ShellDQ.read sh] is the shells'
     documented double-quote reading rule. *)
-From CG Require Import Base.Prelude Model.Ast Model.Quote Spec.ShellDQ Proofs.QuoteRT.
+From CG Require Import Base.Prelude Model.Ast Model.Quote Spec.ShellDQ Proofs.QuoteRT Proofs.QuotePwsh.
 From CGgen Require Import Consts.
 
 (** For every shell, every string outside that shell's hazard class (ShellDQ.hazard: empty for
@@ -69,6 +69,17 @@ Example ex_C07_bash_backslash_regression :
 Proof. vm_compute. reflexivity. Qed.
 Print Assumptions ex_C07_bash_backslash_regression.
 
+(** pwsh: every string that contains no smart double quote (U+201C, U+201D, U+201E as UTF-8) -- the
+    exact class of the known finding below, tighter than the pairwise [admissible Pwsh]. *)
+Theorem C07_pwsh_exact :
+  forall s rest, smart_free s = true -> safe Pwsh rest = true ->
+    read Pwsh (append (make_string_constant Pwsh s) rest) = Some (s, rest).
+Proof. exact pwsh_roundtrip_exact. Qed.
+Check C07_pwsh_exact :
+  forall s rest, smart_free s = true -> safe Pwsh rest = true ->
+    read Pwsh (append (make_string_constant Pwsh s) rest) = Some (s, rest).
+Print Assumptions C07_pwsh_exact.
+
 (** KNOWN FINDING (pwsh.rs does not escape U+201C/U+201D/U+201E, which PowerShell's tokenizer
     treats as double quotes): the description [a(U+201D)b] is cut after [a]. *)
 Definition smart_quote_201D : string :=
@@ -81,6 +92,27 @@ Check C07_refuted_pwsh_smart_quote :
   read Pwsh (append (make_string_constant Pwsh (append "a" (append smart_quote_201D "b"))) ";")
   = Some ("a", "b"";").
 Print Assumptions C07_refuted_pwsh_smart_quote.
+
+(** What closes the pwsh finding: if pwsh.rs appended to its chain one replacement [q -> backtick q] for
+    each of U+201C, U+201D, U+201E ([patched_chain] = the regenerated chain ++ these three, three-byte
+    UTF-8 patterns), EVERY string would read back.  The chain is then no longer characterwise on bytes;
+    the proof (Proofs/QuotePwsh.v) shows that each such pass inserts a backtick before every occurrence,
+    that on top of the bytewise image of the existing chain the three passes escape exactly the smart
+    quotes of the original string, and that PowerShell reads backtick + E2 as E2. *)
+Theorem C07_pwsh_total_if_patched :
+  forall s rest, safe Pwsh rest = true ->
+    read Pwsh (append (append dq_string (append (apply_chain patched_chain s) dq_string)) rest) = Some (s, rest).
+Proof. exact pwsh_patched_total. Qed.
+Check C07_pwsh_total_if_patched :
+  forall s rest, safe Pwsh rest = true ->
+    read Pwsh (append (append dq_string (append (apply_chain patched_chain s) dq_string)) rest) = Some (s, rest).
+Print Assumptions C07_pwsh_total_if_patched.
+
+Example ex_C07_pwsh_patched :
+  read Pwsh (append (append dq_string (append (apply_chain patched_chain (append "a" (append smart_quote_201D "$b"))) dq_string)) ";")
+  = Some (append "a" (append smart_quote_201D "$b"), ";").
+Proof. vm_compute. reflexivity. Qed.
+Print Assumptions ex_C07_pwsh_patched.
 
 (** Non-vacuity: a literal with every character the property text lists (quotes, dollar,
     backtick, bang, star, question mark, tilde, hash, ampersand, brackets, braces, and a backslash
